@@ -371,7 +371,13 @@ func (w *world) check(ctx, key string, got statecache.Value, hit bool, exp entry
 		case !expOK:
 			w.fail("c06.hit", ctx+":hit-without-committed-source", "%s lookup of %q hit with %q although no committed block on its chain (nor an own write) holds the key", ctx, key, r)
 		case exp.deleted:
-			w.fail("c06.hit", ctx+":removed-key-hit", "%s lookup of %q hit with %q although the key was removed on that chain", ctx, key, r)
+			class := ctx + ":removed-key-hit"
+			// same capacity finding as below when the version that holds the removal was evicted
+			if v := w.m.vers[key]; v != nil && exp.at != "" && !v.Has(exp.at) {
+				class = "wrong-value:right-version-evicted-for-capacity"
+				w.stats.Inc("probe.wrong-value-after-eviction")
+			}
+			w.fail("c06.hit", class, "%s lookup of %q hit with %q although the key was removed on that chain", ctx, key, r)
 		case r != exp.val:
 			class := ctx + ":wrong-value"
 			// the per-key LRU keeps 200 versions: the right version can only have been
